@@ -222,6 +222,34 @@ func extractEffects(fx *Facts, fn *ssa.Function, targetOK func(*Term) bool, lab 
 						out = append(out, Effect{TargetT: tgt, Target: canon(tgt), Op: e.Op, AmountT: am, Amount: shape(am), Arm: arm, Guard: fs.String(), GuardFS: fs, Pos: instrPos(in), Via: cal.Name() + "→" + e.Via, Block: in.Block()})
 					}
 				}
+			case *ssa.MakeClosure:
+				// a callback created here (handed to an iterating helper, or called later) belongs to the function:
+				// its effects are attributed to the arm of the creation site combined with its own arm, with the
+				// captured variables translated back to the creator's values
+				cl := x.Fn.(*ssa.Function)
+				if cl == fn || len(cl.Blocks) == 0 {
+					continue
+				}
+				clLab := func(f Fact) string { return lab(Fact{substFree(f.T, cl, x), f.Pol}) }
+				fs := fx.FactsAt(in)
+				for _, e := range extractEffects(fx, cl, func(*Term) bool { return true }, clLab, inline) {
+					tgt := substFree(e.TargetT, cl, x)
+					if !targetOK(tgt) {
+						continue
+					}
+					arm := armOf(fs, lab)
+					if e.Arm != "" {
+						if arm != "" {
+							arm += " & "
+						}
+						arm += e.Arm
+					}
+					var am *Term
+					if e.AmountT != nil {
+						am = substFree(e.AmountT, cl, x)
+					}
+					out = append(out, Effect{TargetT: tgt, Target: canon(tgt), Op: e.Op, AmountT: am, Amount: shape(am), Arm: arm, Guard: fs.String(), GuardFS: fs, Pos: e.Pos, Via: "closure→" + e.Via, Block: in.Block()})
+				}
 			case *ssa.Store:
 				tgt := termOf(x.Addr)
 				if !targetOK(tgt) {
